@@ -58,8 +58,9 @@ def gen_instances(ctx):
             out.append(('bool3care', ci.boolean_instance(3, fm, cm, bk())))
     # 4 two-valued variables, care = TRUE
     if ctx.thorough:
-        # exhaustive; light comparison (no cyclic_core, one pick) because the
-        # model is proved minimum on this whole domain (C09_bounded_4)
+        # exhaustive; only the verified checker on the real cover (the model
+        # is proved minimum on this whole domain by C09_bounded_4, so the
+        # cardinalities agree whenever the checker accepts)
         for m in range(1, 65535):
             out.append(('bool4all', ci.boolean_instance(
                 4, m, None, 'cudd' if m % 2 else 'autoref')))
@@ -132,7 +133,7 @@ def coq_group(i, inst, res):
     terms = [f'is_min_prime_cover_b {args} {cq.boxes(proj(res["cover"]))}']
     keys = ['checker']
     n = len(res['cover'])
-    for pk in (('pick_first',) if res['kind'] == 'bool4all'
+    for pk in (() if res['kind'] == 'bool4all'
                else ('pick_first', 'pick_last')):
         terms.append(
             f'match minimize {p}rs {pk} {p}f {p}care with '
